@@ -267,6 +267,54 @@ def _expand_entries(entries: Dict[str, List[Any]], mode: str) -> List[Dict[str, 
         raise ConfigurationError(f"Unknown expansion mode '{mode}'")
 
 
+def _planned_size(entries: Dict[str, List[Any]], mode: str) -> int:
+    """Number of runs :func:`_expand_entries` would produce, without building them."""
+    if not entries:
+        return 0
+    if mode == "by_position":
+        lengths_by_key = {key: len(entries[key]) for key in sorted(entries)}
+        if len(set(lengths_by_key.values())) > 1:
+            raise ConfigurationError(
+                f"by_position block requires identical list lengths; got {lengths_by_key}"
+            )
+        return next(iter(lengths_by_key.values()))
+    if mode == "combinatorial":
+        size = 1
+        for values in entries.values():
+            size *= len(values)
+        return size
+    raise ConfigurationError(f"Unknown expansion mode '{mode}'")
+
+
+def _planned_block_size(
+    mode: str,
+    context_entries: Dict[str, List[Any]],
+    source_entries: Dict[str, List[Any]],
+    source_mode: str,
+) -> int:
+    """Number of runs a block expands to, computed arithmetically."""
+    if mode == "by_position":
+        sizes = []
+        if context_entries:
+            sizes.append(_planned_size(context_entries, "by_position"))
+        if source_entries:
+            sizes.append(_planned_size(source_entries, source_mode))
+        if sizes and len(set(sizes)) != 1:
+            raise ConfigurationError(
+                f"by_position block requires equal run counts between context and source; got {sizes}"
+            )
+        return sizes[0] if sizes else 0
+    if mode == "combinatorial":
+        context_size = (
+            _planned_size(context_entries, "combinatorial") if context_entries else 1
+        )
+        source_size = (
+            _planned_size(source_entries, source_mode) if source_entries else 1
+        )
+        return context_size * source_size
+    raise ConfigurationError(f"Unknown block mode '{mode}'")
+
+
 def _load_and_process_source(
     src: RunSource, base_dir: Path
 ) -> Tuple[Dict[str, List[Any]], Dict[str, Any]]:
@@ -366,7 +414,11 @@ def expand_run_space(
     block_meta = []
     seen_keys: set[str] = set()
 
-    # Process each block
+    # Plan every block first: load sources, validate keys and compute the block
+    # sizes arithmetically, so that the max_runs guard can reject an oversized
+    # run space before any of it is materialised.
+    planned: List[Tuple[Dict[str, List[Any]], Dict[str, List[Any]], Any]] = []
+    planned_sizes: List[int] = []
     for index, block in enumerate(spec.blocks):
         context_entries = {key: list(values) for key, values in block.context.items()}
         source_entries: Dict[str, List[Any]] = {}
@@ -382,6 +434,53 @@ def expand_run_space(
                 raise ConfigurationError(
                     f"Duplicate context key(s) within block (context vs source): {sorted(duplicate_keys)!r}"
                 )
+
+        default_source_mode = (
+            "by_position" if block.mode == "by_position" else "combinatorial"
+        )
+        planned_sizes.append(
+            _planned_block_size(
+                block.mode,
+                context_entries,
+                source_entries,
+                block.source.mode if block.source else default_source_mode,
+            )
+        )
+
+        # Check for duplicate keys across blocks
+        current_keys = set(context_entries) | set(source_entries)
+        duplicate_keys = seen_keys.intersection(current_keys)
+        if duplicate_keys:
+            raise ConfigurationError(
+                f"Duplicate context key(s) across blocks: {sorted(duplicate_keys)!r} (at index {index})"
+            )
+        seen_keys.update(current_keys)
+        planned.append((context_entries, source_entries, source_meta))
+
+    if planned_sizes:
+        if spec.combine == "combinatorial":
+            planned_total = 1
+            for size in planned_sizes:
+                planned_total *= size
+        elif spec.combine == "by_position":
+            if len(set(planned_sizes)) != 1:
+                raise ConfigurationError(
+                    f"combine=by_position requires equal block sizes; got {planned_sizes}"
+                )
+            planned_total = planned_sizes[0]
+        else:
+            raise ConfigurationError(
+                f"Unknown run_space combine mode '{spec.combine}'"
+            )
+        if planned_total > spec.max_runs:
+            raise RunSpaceMaxRunsExceededError(
+                actual_runs=planned_total,
+                max_runs=spec.max_runs,
+            )
+
+    # Materialise each block
+    for index, block in enumerate(spec.blocks):
+        context_entries, source_entries, source_meta = planned[index]
 
         # Combine context and source based on block mode
         if block.mode == "by_position":
@@ -434,14 +533,7 @@ def expand_run_space(
         else:
             raise ConfigurationError(f"Unknown block mode '{block.mode}'")
 
-        # Check for duplicate keys across blocks
         current_keys = set(context_entries) | set(source_entries)
-        duplicate_keys = seen_keys.intersection(current_keys)
-        if duplicate_keys:
-            raise ConfigurationError(
-                f"Duplicate context key(s) across blocks: {sorted(duplicate_keys)!r} (at index {index})"
-            )
-        seen_keys.update(current_keys)
 
         all_block_runs.append(block_runs)
 
